@@ -7,7 +7,7 @@ mod verif_c01_step {
     use super::*;
 
     // @harness id=C01 tier=quick timeout=2400 mem=12
-    // @bounds W=2 H=2, 0 lines (a symbolic number of text lines first, then bar lines), each 0..=4 columns; top alignment; previous frame b in 0..=H rows, any cursor column, parked/unparked start; all bar lines fit into H rows; excludes the two recorded finding regions
+    // @bounds W=2 H=2, 0 lines (a symbolic number of text lines first, then bar lines), each 0..=4 columns; top alignment; previous frame b in 0..=H rows, any cursor column, parked/unparked start; all bar lines fit into H rows; excludes the recorded finding region (zero-width first line after a text-only draw)
     #[kani::proof]
     #[kani::unwind(7)]
     //@STUBS widthascii repeat
@@ -18,7 +18,7 @@ mod verif_c01_step {
     }
 
     // @harness id=C01 tier=quick timeout=2400 mem=12
-    // @bounds W=2 H=2, 1 lines (a symbolic number of text lines first, then bar lines), each 0..=4 columns; top alignment; previous frame b in 0..=H rows, any cursor column, parked/unparked start; all bar lines fit into H rows; excludes the two recorded finding regions
+    // @bounds W=2 H=2, 1 lines (a symbolic number of text lines first, then bar lines), each 0..=4 columns; top alignment; previous frame b in 0..=H rows, any cursor column, parked/unparked start; all bar lines fit into H rows; excludes the recorded finding region (zero-width first line after a text-only draw)
     #[kani::proof]
     #[kani::unwind(7)]
     //@STUBS widthascii repeat
@@ -30,7 +30,7 @@ mod verif_c01_step {
     }
 
     // @harness id=C01 tier=quick timeout=2400 mem=12
-    // @bounds W=2 H=3, 2 lines (a symbolic number of text lines first, then bar lines), each 0..=4 columns; top alignment; previous frame b in 0..=H rows, any cursor column, parked/unparked start; all bar lines fit into H rows; excludes the two recorded finding regions
+    // @bounds W=2 H=3, 2 lines (a symbolic number of text lines first, then bar lines), each 0..=4 columns; top alignment; previous frame b in 0..=H rows, any cursor column, parked/unparked start; all bar lines fit into H rows; excludes the recorded finding region (zero-width first line after a text-only draw)
     #[kani::proof]
     #[kani::unwind(7)]
     //@STUBS widthascii repeat
@@ -43,7 +43,7 @@ mod verif_c01_step {
     }
 
     // @harness id=C01 tier=quick timeout=2400 mem=12
-    // @bounds W=3 H=2, 2 lines (a symbolic number of text lines first, then bar lines), each 0..=6 columns; top alignment; previous frame b in 0..=H rows, any cursor column, parked/unparked start; all bar lines fit into H rows; excludes the two recorded finding regions
+    // @bounds W=3 H=2, 2 lines (a symbolic number of text lines first, then bar lines), each 0..=6 columns; top alignment; previous frame b in 0..=H rows, any cursor column, parked/unparked start; all bar lines fit into H rows; excludes the recorded finding region (zero-width first line after a text-only draw)
     #[kani::proof]
     #[kani::unwind(7)]
     //@STUBS widthascii repeat
@@ -56,7 +56,7 @@ mod verif_c01_step {
     }
 
     // @harness id=C01 tier=quick timeout=2400 mem=12
-    // @bounds W=1 H=2, 2 lines (a symbolic number of text lines first, then bar lines), each 0..=2 columns; top alignment; previous frame b in 0..=H rows, any cursor column, parked/unparked start; all bar lines fit into H rows; excludes the two recorded finding regions
+    // @bounds W=1 H=2, 2 lines (a symbolic number of text lines first, then bar lines), each 0..=2 columns; top alignment; previous frame b in 0..=H rows, any cursor column, parked/unparked start; all bar lines fit into H rows; excludes the recorded finding region (zero-width first line after a text-only draw)
     #[kani::proof]
     #[kani::unwind(7)]
     //@STUBS widthascii repeat
@@ -69,7 +69,7 @@ mod verif_c01_step {
     }
 
     // @harness id=C01 tier=quick timeout=2400 mem=12
-    // @bounds W=2 H=3, 1 lines (a symbolic number of text lines first, then bar lines), each 0..=4 columns; bottom alignment; previous frame b in 0..=H rows, any cursor column, parked/unparked start; all bar lines fit into H rows; excludes the two recorded finding regions
+    // @bounds W=2 H=3, 1 lines (a symbolic number of text lines first, then bar lines), each 0..=4 columns; bottom alignment; previous frame b in 0..=H rows, any cursor column, parked/unparked start; all bar lines fit into H rows; excludes the recorded finding region (zero-width first line after a text-only draw)
     #[kani::proof]
     #[kani::unwind(7)]
     //@STUBS widthascii repeat
@@ -82,7 +82,7 @@ mod verif_c01_step {
     }
 
     // @harness id=C01 tier=quick timeout=2400 mem=12
-    // @bounds W=2 H=2, 0 lines (a symbolic number of text lines first, then bar lines), each 0..=4 columns; bottom alignment; previous frame b in 0..=H rows, any cursor column, parked/unparked start; all bar lines fit into H rows; excludes the two recorded finding regions
+    // @bounds W=2 H=2, 0 lines (a symbolic number of text lines first, then bar lines), each 0..=4 columns; bottom alignment; previous frame b in 0..=H rows, any cursor column, parked/unparked start; all bar lines fit into H rows; excludes the recorded finding region (zero-width first line after a text-only draw)
     #[kani::proof]
     #[kani::unwind(7)]
     //@STUBS widthascii repeat
@@ -94,7 +94,7 @@ mod verif_c01_step {
     }
 
     // @harness id=C01 tier=quick timeout=2400 mem=12
-    // @bounds W=1 H=1, 1 lines (a symbolic number of text lines first, then bar lines), each 0..=2 columns; top alignment; previous frame b in 0..=H rows, any cursor column, parked/unparked start; all bar lines fit into H rows; excludes the two recorded finding regions
+    // @bounds W=1 H=1, 1 lines (a symbolic number of text lines first, then bar lines), each 0..=2 columns; top alignment; previous frame b in 0..=H rows, any cursor column, parked/unparked start; all bar lines fit into H rows; excludes the recorded finding region (zero-width first line after a text-only draw)
     #[kani::proof]
     #[kani::unwind(7)]
     //@STUBS widthascii repeat
@@ -105,7 +105,7 @@ mod verif_c01_step {
     }
 
     // @harness id=C01 tier=thorough timeout=2400 mem=12
-    // @bounds W=3 H=3, 3 lines (a symbolic number of text lines first, then bar lines), each 0..=6 columns; top alignment; previous frame b in 0..=H rows, any cursor column, parked/unparked start; all bar lines fit into H rows; excludes the two recorded finding regions
+    // @bounds W=3 H=3, 3 lines (a symbolic number of text lines first, then bar lines), each 0..=6 columns; top alignment; previous frame b in 0..=H rows, any cursor column, parked/unparked start; all bar lines fit into H rows; excludes the recorded finding region (zero-width first line after a text-only draw)
     #[kani::proof]
     #[kani::unwind(7)]
     //@STUBS widthascii repeat
@@ -118,7 +118,7 @@ mod verif_c01_step {
     }
 
     // @harness id=C01 tier=thorough timeout=2400 mem=12
-    // @bounds W=4 H=4, 3 lines (a symbolic number of text lines first, then bar lines), each 0..=8 columns; top alignment; previous frame b in 0..=H rows, any cursor column, parked/unparked start; all bar lines fit into H rows; excludes the two recorded finding regions
+    // @bounds W=4 H=4, 3 lines (a symbolic number of text lines first, then bar lines), each 0..=8 columns; top alignment; previous frame b in 0..=H rows, any cursor column, parked/unparked start; all bar lines fit into H rows; excludes the recorded finding region (zero-width first line after a text-only draw)
     #[kani::proof]
     #[kani::unwind(7)]
     //@STUBS widthascii repeat
@@ -131,7 +131,7 @@ mod verif_c01_step {
     }
 
     // @harness id=C01 tier=thorough timeout=2400 mem=12
-    // @bounds W=2 H=4, 3 lines (a symbolic number of text lines first, then bar lines), each 0..=4 columns; top alignment; previous frame b in 0..=H rows, any cursor column, parked/unparked start; all bar lines fit into H rows; excludes the two recorded finding regions
+    // @bounds W=2 H=4, 3 lines (a symbolic number of text lines first, then bar lines), each 0..=4 columns; top alignment; previous frame b in 0..=H rows, any cursor column, parked/unparked start; all bar lines fit into H rows; excludes the recorded finding region (zero-width first line after a text-only draw)
     #[kani::proof]
     #[kani::unwind(7)]
     //@STUBS widthascii repeat
@@ -144,7 +144,7 @@ mod verif_c01_step {
     }
 
     // @harness id=C01 tier=thorough timeout=2400 mem=12
-    // @bounds W=4 H=2, 2 lines (a symbolic number of text lines first, then bar lines), each 0..=8 columns; top alignment; previous frame b in 0..=H rows, any cursor column, parked/unparked start; all bar lines fit into H rows; excludes the two recorded finding regions
+    // @bounds W=4 H=2, 2 lines (a symbolic number of text lines first, then bar lines), each 0..=8 columns; top alignment; previous frame b in 0..=H rows, any cursor column, parked/unparked start; all bar lines fit into H rows; excludes the recorded finding region (zero-width first line after a text-only draw)
     #[kani::proof]
     #[kani::unwind(7)]
     //@STUBS widthascii repeat
@@ -157,7 +157,7 @@ mod verif_c01_step {
     }
 
     // @harness id=C01 tier=thorough timeout=2400 mem=12
-    // @bounds W=2 H=3, 2 lines (a symbolic number of text lines first, then bar lines), each 0..=4 columns; bottom alignment; previous frame b in 0..=H rows, any cursor column, parked/unparked start; all bar lines fit into H rows; excludes the two recorded finding regions
+    // @bounds W=2 H=3, 2 lines (a symbolic number of text lines first, then bar lines), each 0..=4 columns; bottom alignment; previous frame b in 0..=H rows, any cursor column, parked/unparked start; all bar lines fit into H rows; excludes the recorded finding region (zero-width first line after a text-only draw)
     #[kani::proof]
     #[kani::unwind(7)]
     //@STUBS widthascii repeat
@@ -171,7 +171,7 @@ mod verif_c01_step {
     }
 
     // @harness id=C01 tier=thorough timeout=2400 mem=12
-    // @bounds W=3 H=3, 3 lines (a symbolic number of text lines first, then bar lines), each 0..=6 columns; bottom alignment; previous frame b in 0..=H rows, any cursor column, parked/unparked start; all bar lines fit into H rows; excludes the two recorded finding regions
+    // @bounds W=3 H=3, 3 lines (a symbolic number of text lines first, then bar lines), each 0..=6 columns; bottom alignment; previous frame b in 0..=H rows, any cursor column, parked/unparked start; all bar lines fit into H rows; excludes the recorded finding region (zero-width first line after a text-only draw)
     #[kani::proof]
     #[kani::unwind(7)]
     //@STUBS widthascii repeat
@@ -185,7 +185,7 @@ mod verif_c01_step {
     }
 
     // @harness id=C01 tier=thorough timeout=2400 mem=12
-    // @bounds W=3 H=3, 0 lines (a symbolic number of text lines first, then bar lines), each 0..=6 columns; bottom alignment; previous frame b in 0..=H rows, any cursor column, parked/unparked start; all bar lines fit into H rows; excludes the two recorded finding regions
+    // @bounds W=3 H=3, 0 lines (a symbolic number of text lines first, then bar lines), each 0..=6 columns; bottom alignment; previous frame b in 0..=H rows, any cursor column, parked/unparked start; all bar lines fit into H rows; excludes the recorded finding region (zero-width first line after a text-only draw)
     #[kani::proof]
     #[kani::unwind(7)]
     //@STUBS widthascii repeat
@@ -197,7 +197,7 @@ mod verif_c01_step {
     }
 
     // @harness id=C01 tier=thorough timeout=2400 mem=12
-    // @bounds W=4 H=4, 2 lines (a symbolic number of text lines first, then bar lines), each 0..=8 columns; bottom alignment; previous frame b in 0..=H rows, any cursor column, parked/unparked start; all bar lines fit into H rows; excludes the two recorded finding regions
+    // @bounds W=4 H=4, 2 lines (a symbolic number of text lines first, then bar lines), each 0..=8 columns; bottom alignment; previous frame b in 0..=H rows, any cursor column, parked/unparked start; all bar lines fit into H rows; excludes the recorded finding region (zero-width first line after a text-only draw)
     #[kani::proof]
     #[kani::unwind(7)]
     //@STUBS widthascii repeat
@@ -220,7 +220,7 @@ mod verif_c01_step {
         kani::cover!(true);
     }
 
-    // @harness id=C01 tier=quick timeout=2400 mem=12 expect=known:C03-bottom-align-shrink-with-text-lines
+    // @harness id=C01 tier=quick timeout=2400 mem=12
     // @bounds W=2 H=3, 2 lines (a symbolic number of text lines first, then bar lines), each 0..=4 columns; bottom alignment; previous frame b in 0..=H rows, any cursor column, parked/unparked start; ONLY: bottom alignment, frame shrinks, at least one text line in the same draw
     #[kani::proof]
     #[kani::unwind(7)]
